@@ -44,7 +44,9 @@ def op(line):
     if k=='REVOKE': return 'ORevoke %s %s %s'%(t.z(),t.z(),t.z())
     if k=='SEND': return 'OSend %s %s %s'%(t.z(),t.z(),t.z())
     if k=='PROP':
-        sg=t.z(); tt=tk(t); li=t.z(); ks=t.lst(t.z); return 'OPropose %s %s %s %s'%(sg,tt,L(ks),li)
+        sg=t.z(); tt=tk(t); li=t.z()
+        ks=t.lst(lambda: (lambda v: Z(v%100 if v>=100 else v))(int(t.n())))   # 100+i / 200+i: key i spelled with extra white space
+        return 'OPropose %s %s %s %s'%(sg,tt,L(ks),li)
     if k=='VOTE':
         sg=t.z(); tt=tk(t); return 'OVote %s %s %s %s %s'%(sg,tt,t.z(),t.z(),t.z())
     if k in('SCRE','STOP'):
